@@ -192,7 +192,8 @@ def decodePage (pid : Nat) : Except DecodeErr LPage :=
 end
 
 /-! ### choosing the header (`DBInner::meta`, `db.rs:284`), new format only here; the legacy
-format is the same procedure with the SHA3 digest (see `Legacy.lean`). -/
+format is the same procedure with the SHA3 digest (`slotValidOld` below; the digest function is a
+parameter, the driver passes its own SHA3-256, `Driver/Sha3.lean`). -/
 
 inductive OpenErr where
   | pagesizeMismatch     -- documented panic: file has a different page size
